@@ -28,12 +28,16 @@ def _consts(ids, maxnow, dev="{}"):
 
 
 def model_check(ctx, thorough):
-    ids, maxnow = (IDS4, 3) if thorough else (IDS3, 1)
-    ctx.mc("Electric", "ElectricMC.cfg", consts=_consts(ids, maxnow), workers=vf.NCPU if thorough else 4, timeout=1800,
-           deadlock=False)
+    # (stored modes carry a start_time since the write-back operations: one title in the larger instances)
+    for ids, titles, maxnow in ([(IDS4, "{0}", 2), (IDS3, "{0, 1}", 2)] if thorough else [(IDS3, "{0}", 1)]):
+        c = _consts(ids, maxnow)
+        c["Titles"] = titles
+        ctx.mc("Electric", "ElectricMC.cfg", consts=c, workers=vf.NCPU if thorough else 4, timeout=1800, deadlock=False)
     # the invariants have teeth on the model: with the code's deviations switched on TLC must find the
     # state invariant / step clause failing (this run says nothing about the code)
     shown = {}
+    if not thorough:
+        return
     for dev, inv in (("update-no-normal-check", "AtMostOneNormal"), ("delete-am-notfound", "DeleteAbsent")):
         r = ctx.tlc("Electric", None, cfg_text=MC_AS_CODED_CFG % inv, consts=_consts(IDS3, 1, '{"%s"}' % dev),
                     workers=1, timeout=600, deadlock=False)
@@ -47,15 +51,18 @@ def model_check(ctx, thorough):
 def gen_cases(ctx, thorough):
     """Runs the generators; the printed sequences go straight to progs.ndjson (they can be ~10^6)."""
     import json
-    plans = [("ElectricGenExh.cfg", {"Depth": 5 if thorough else 4, "NRandom": 0, "WalkLen": 0,
-                                     "AddIds": '{"a", "b"}', "MaxGen": 1, "MaxModes": 4})]
+    rnd = {"NRandom": 40000 if thorough else 2500, "WalkLen": 10 if thorough else 6,
+           "RandAddIds": IDS4 if thorough else IDS3}
+    none = {"NRandom": 0, "WalkLen": 0, "RandAddIds": "{}"}
+    exh = {"AddIds": '{"a", "b"}', "MaxGen": 1, "MaxModes": 4}
     if thorough:
-        # deeper, narrower: one AddMode id, one CreateMode
-        plans.append(("ElectricGenExh.cfg", {"Depth": 6, "NRandom": 0, "WalkLen": 0,
-                                             "AddIds": '{"a"}', "MaxGen": 1, "MaxModes": 4}))
-    plans.append(("ElectricGenRand.cfg", {"Depth": 0, "NRandom": 40000 if thorough else 2500,
-                                          "WalkLen": 10 if thorough else 6,
-                                          "AddIds": IDS4 if thorough else IDS3, "MaxGen": 9, "MaxModes": 4}))
+        plans = [("ElectricGenExh.cfg", dict(exh, Depth=5, **none)),
+                 # deeper, narrower: one AddMode id, no CreateMode
+                 ("ElectricGenExh.cfg", dict(exh, Depth=6, AddIds='{"a"}', MaxGen=0, **none)),
+                 ("ElectricGenRand.cfg", dict(exh, Depth=0, MaxGen=9, **rnd))]
+    else:
+        # both generators in one TLC run
+        plans = [("ElectricGenBoth.cfg", dict(exh, Depth=4, **rnd))]
     counts = []
     total = 0
     cpath = ctx.path("progs.ndjson")
@@ -143,7 +150,7 @@ def trace_check(ctx, obs_path, label, each):
                     what = ("step %d of sequence %d through the %s: clause '%s' of C19 false on what the real code did"
                             % (o["step"], o["prog"], "Model API" if o["api"] == "model" else "gRPC servers", clause))
                 else:
-                    sig = "C19/concurrent/%s/%s" % (o["kind"], clause)
+                    sig = "C19/concurrent/%s/%s" % (o["kind"] + ("-" + o["part"] if o["kind"] == "cclear" else ""), clause)
                     what = ("run %d round %d of the concurrent part (%s line): clause '%s' of C19 false"
                             % (o["run"], o["round"], o["kind"], clause))
                 ctx.violation(sig, what, o)
@@ -177,27 +184,30 @@ def run(ctx):
         if o["err"] != "OK" or o["post"] != o["pre"]:
             ctx.distinct((o["api"], o["pre"]["modes"], o["pre"]["active"], o["changed"],
                           {f: v for f, v in o["op"].items() if f != "dt"}, o["now"] - o["pre"]["active"]["start"]))
-        if k in (1, n // 2, n // 2 + 1):
+        if k in (1, 1001, 1002):
             ctx.sample(o)
 
-    nobs = trace_check(ctx, obs_path, "sequential", each_step)
     ctx.cov["traces_validated_against_impl"] += 2 * nprogs
-    ctx.cov["steps_validated"] = nobs
 
     # ---- concurrent part
     cobs_path = ctx.path("obs-conc.ndjson")
     runs, rounds, nops = (3000, 10, 4) if thorough else (150, 8, 4)
-    p = ctx.run_harness(["conc", "-out", cobs_path, "-runs", str(runs), "-rounds", str(rounds), "-ops", str(nops)],
+    movers, clears, forced = (60, 2000, 1500) if thorough else (6, 700, 150)
+    p = ctx.run_harness(["conc", "-out", cobs_path, "-runs", str(runs), "-rounds", str(rounds), "-ops", str(nops),
+                         "-movers", str(movers), "-clears", str(clears), "-forced", str(forced)],
                         timeout=3000, cmd="electric", check=False)
     if p.crash:
         ctx.violation("C19/crash/concurrent", "the process died in the concurrent part: " + p.crash["message"], p.crash)
         return
     if p.returncode != 0:
         raise vf.Inconclusive("harness electric conc failed rc=%d:\n%s" % (p.returncode, p.stdout[-3000:]))
-    c = {"quiesce": 0, "mstream": 0, "aevent": 0, "undrained": 0, "calls": 0}
+    c = {"quiesce": 0, "mstream": 0, "aevent": 0, "cclear": 0, "cclear-ok": 0, "undrained": 0, "calls": 0}
 
     def each_conc(k, n, o):
         c[o["kind"]] += 1
+        if o["kind"] == "cclear":
+            c["cclear-ok"] += 1 if o["err"] == "OK" else 0
+            ctx.distinct(("cclear", o["part"], o["api"], o["err"], o["ret"]["m"]["id"]))
         if o["kind"] != "quiesce":
             return
         c["undrained"] += 0 if o["drained"] else 1
@@ -208,7 +218,22 @@ def run(ctx):
         if c["quiesce"] == runs * rounds // 2:
             ctx.sample(o)
 
-    trace_check(ctx, cobs_path, "concurrent", each_conc)
+    # one trace check over both logs (steps first, then the lines of the concurrent part)
+    with open(obs_path, "a") as f, open(cobs_path) as g:
+        for line in g:
+            f.write(line)
+    os.remove(cobs_path)
+    steps = [0]
+
+    def each(k, n, o):
+        if o["kind"] == "step":
+            steps[0] += 1
+            each_step(k, n, o)
+        else:
+            each_conc(k, n, o)
+
+    trace_check(ctx, obs_path, "sequential+concurrent", each)
+    ctx.cov["steps_validated"] = steps[0]
     if c["undrained"] > c["quiesce"] // 10:
         raise vf.Inconclusive("the Pull streams did not catch up with the model at %d of %d quiescent points"
                               % (c["undrained"], c["quiesce"]))
@@ -216,6 +241,7 @@ def run(ctx):
                              "quiescent_states_checked": c["quiesce"],
                              "streamed_tables_checked": c["mstream"],
                              "streamed_active_modes_checked": c["aevent"],
+                             "clear_responses_checked": c["cclear"], "clear_responses_ok": c["cclear-ok"],
                              "calls": c["calls"],
                              "quiescent_points_with_streams_not_caught_up": c["undrained"]}
     ctx.cov["traces_validated_against_impl"] += runs
